@@ -78,6 +78,7 @@ class KSock(socket.socket):
         self.blocked = 0
         self.fired: List[Tuple[str, int, str]] = []
         self.explicit_close = False
+        self.gone_iter: Optional[int] = None      # iteration at which the proxy learnt (EOF / error) that the peer is gone
         world.ksocks.append(self)
 
     # -- mode emulation: the fd stays non-blocking, the mode the proxy asked for is remembered
@@ -132,6 +133,10 @@ class KSock(socket.socket):
             self.short += 1
             self._wouldblock()
             raise
+        except OSError:
+            if self.gone_iter is None:
+                self.gone_iter = self.world.iter
+            raise
         if n < len(data):
             self.short += 1
         if n:
@@ -146,6 +151,12 @@ class KSock(socket.socket):
         except BlockingIOError:
             self._wouldblock()
             raise
+        except OSError:
+            if self.gone_iter is None:
+                self.gone_iter = self.world.iter
+            raise
+        if b == b'' and self.gone_iter is None:
+            self.gone_iter = self.world.iter
         self.bytes_in += len(b)
         self.world.activity += 1
         return b
@@ -188,6 +199,7 @@ class Peer:
         self.reset_seen = False
         self.err: Optional[str] = None
         self.closed = False
+        self.closed_iter: Optional[int] = None
         self.shut = False
         self.world: Optional['World'] = None
         self.opened_iter: Optional[int] = None
@@ -250,6 +262,7 @@ class Peer:
     def do_close(self) -> None:
         if not self.closed and self.sock is not None:
             self.closed = True
+            self.closed_iter = self.world.iter if self.world is not None else None
             self.sock.close()
             self.world.activity += 1     # type: ignore[union-attr]
 
@@ -554,6 +567,18 @@ class World:
             CURRENT = None
         return self
 
+    def finish_peers(self, rounds: int = 200) -> None:
+        """After the loop under test has returned: let every peer read what is already in its kernel buffer."""
+        for _ in range(rounds):
+            before = self.activity
+            self.iter += 1
+            for p in self.peers.values():
+                if p.sock is not None and not p.closed:
+                    p.pc = len(p.script)
+                    p.drain()
+            if self.activity == before:
+                break
+
     @property
     def worker_died(self) -> bool:
         return not self.ended_by_script
@@ -600,3 +625,72 @@ def make_flags(argv: Optional[List[str]] = None, **opts: Any) -> Any:
     flags = FlagParser.initialize(list(argv or []), **opts)
     logging.disable(logging.CRITICAL)
     return flags
+
+
+# ---------------------------------------------------------------------------------------------
+# threaded mode: the real HttpProtocolHandler.run() (own selector, blocking _flush() in shutdown())
+# executed in the harness thread; the handler's selector is replaced by a stepping wrapper.
+
+class StopRun(BaseException):
+    """Raised out of the stepping selector to end a threaded run at quiescence / budget."""
+
+
+class SteppingSelector:
+    def __init__(self, real: Any, world: 'World') -> None:
+        self.real = real
+        self.world = world
+
+    def register(self, *a: Any, **k: Any) -> Any:
+        return self.real.register(*a, **k)
+
+    def unregister(self, *a: Any, **k: Any) -> Any:
+        return self.real.unregister(*a, **k)
+
+    def modify(self, *a: Any, **k: Any) -> Any:
+        return self.real.modify(*a, **k)
+
+    def get_map(self) -> Any:
+        return self.real.get_map()
+
+    def get_key(self, f: Any) -> Any:
+        return self.real.get_key(f)
+
+    def close(self) -> None:
+        self.real.close()
+
+    def select(self, timeout: Any = None) -> Any:
+        try:
+            r = self.world.step()
+        except queue.Empty:
+            r = None
+        if r is False:
+            raise StopRun()
+        return self.real.select(0)
+
+
+def _run_threaded(self: World, client_name: str) -> World:
+    """Thread-per-connection mode for ONE client connection (as the acceptor would start it)."""
+    global CURRENT
+    CURRENT = self
+    peer = self.peers[client_name]
+    self.open_client(peer)
+    conn, addr = self.accept_q.pop(0)
+    work_klass = self.flags.work_klass
+    work = work_klass(work_klass.create(conn, addr), flags=self.flags, event_queue=None, upstream_conn_pool=None)
+    self.executor = None
+    self.threaded_work = work
+    work.selector = SteppingSelector(work.selector, self)
+    self.run_returned = False
+    try:
+        work.run()
+        self.run_returned = True
+    except StopRun:
+        pass
+    except BaseException as e:
+        self.exceptions.append(('run', '%s: %s' % (type(e).__name__, e)))
+    finally:
+        CURRENT = None
+    return self
+
+
+World.run_threaded = _run_threaded     # type: ignore[attr-defined]
